@@ -91,8 +91,12 @@ func isConnectionSpecific(k []byte) bool {
 }
 
 func ToLower(b []byte) []byte {
-	for i := range b {
-		b[i] |= 32
+	for i, c := range b {
+		// only letters have a lower case: OR-ing the bit into everything
+		// turns '_' into DEL and '@' into a backquote
+		if c >= 'A' && c <= 'Z' {
+			b[i] = c | 32
+		}
 	}
 
 	return b
